@@ -166,19 +166,29 @@ def r2_range_filter(repo=None, rid="C12.R2"):
     if len(ifs) != 1:
         raise AnalysisError("%s: `if %s:` not found exactly once" % (ro.add, p_edge))
     cmps = {}
-    for n in ast.walk(ifs[0]):
-        if isinstance(n, ast.Compare) and len(n.ops) == 1:
-            l, rt, op = n.left, n.comparators[0], type(n.ops[0]).__name__
-            if isinstance(rt, ast.Name) and rt.id in (p_lo, p_hi) and isinstance(l, ast.Name):
-                cmps[rt.id] = (l.id, op)
-            elif isinstance(l, ast.Name) and l.id in (p_lo, p_hi) and isinstance(rt, ast.Name):
-                flip = {"LtE": "GtE", "GtE": "LtE", "Lt": "Gt", "Gt": "Lt"}.get(op, op)
-                cmps[l.id] = (rt.id, flip)
+    from .. import pybool
+    for l, op_, rt in pybool.compare_nodes(ifs[0]):
+        op = type(op_).__name__
+        if isinstance(rt, ast.Name) and rt.id in (p_lo, p_hi) and isinstance(l, ast.Name):
+            cmps[rt.id] = (l.id, op)
+        elif isinstance(l, ast.Name) and l.id in (p_lo, p_hi) and isinstance(rt, ast.Name):
+            flip = {"LtE": "GtE", "GtE": "LtE", "Lt": "Gt", "Gt": "Lt"}.get(op, op)
+            cmps[l.id] = (rt.id, flip)
     if p_lo not in cmps or p_hi not in cmps:
         raise AnalysisError("%s: comparisons with %s / %s not found under `if %s`" % (ro.add, p_lo, p_hi, p_edge))
     arr = cmps[p_lo][0]
+    # the selection is applied to the list of keys: a mask subscript `idxs = idxs[valid]`, or a comprehension over the list whose
+    # element variable is the one compared (`idxs = [i for i in idxs if lo <= i <= hi]`)
     sel = [n for n in ast.walk(ifs[0]) if isinstance(n, ast.Assign) and isinstance(n.targets[0], ast.Name) and n.targets[0].id == arr
            and isinstance(n.value, ast.Subscript) and pyfront.dotted(n.value.value) == arr]
+    if not sel:
+        for n in ast.walk(ifs[0]):
+            if isinstance(n, ast.Assign) and isinstance(n.targets[0], ast.Name) and isinstance(n.value, (ast.ListComp, ast.GeneratorExp)) \
+                    and len(n.value.generators) == 1 and isinstance(n.value.generators[0].iter, ast.Name) \
+                    and n.value.generators[0].iter.id == n.targets[0].id and isinstance(n.value.generators[0].target, ast.Name) \
+                    and n.value.generators[0].target.id == arr and isinstance(n.value.elt, ast.Name) and n.value.elt.id == arr \
+                    and n.value.generators[0].ifs:
+                sel = [n]
     if cmps[p_lo] == (arr, "GtE") and cmps[p_hi] == (arr, "LtE") and sel:
         r.ok("%s:%s %s" % (m.rel, ifs[0].lineno, ro.add), "is_edge selects %s <= idx <= %s (inclusive on both ends)" % (p_lo, p_hi))
     else:
@@ -201,6 +211,20 @@ def r3_numeric_key_order(repo=None, rid="C12.R3"):
     r = Rule(rid, "sample keys (stored as strings) are ordered numerically wherever an extreme key is taken")
     m = pyfront.mod("digital_metadata", repo)
     n_sites = 0
+    # the writer names the groups from uint64 values: a reader that parses the names into a signed 64-bit type cannot hold every
+    # index the writer accepted (>= 2**63: OverflowError for every read of that file)
+    for name, f in m.methods(R).items():
+        for c in pyfront.walk_no_nested(f):
+            if isinstance(c, ast.Call) and pyfront.call_name(c) in ("np.fromiter", "numpy.fromiter", "np.array", "np.asarray") and len(c.args) >= 1:
+                src = ast.unparse(c.args[0])
+                keyish = ".keys()" in src or any(isinstance(a_, ast.Assign) and isinstance(a_.targets[0], ast.Name) and a_.targets[0].id == src
+                                                 and ".keys()" in ast.unparse(a_.value) for a_ in pyfront.walk_no_nested(f))
+                dt = c.args[1] if len(c.args) > 1 else pyfront.kwarg(c, "dtype")
+                if keyish and dt is not None and norm(ast.unparse(dt)) in ("np.int64", "numpy.int64", "np.int_", "int", "'i8'", "'int64'", "np.longlong"):
+                    r.violation(m.rel, "%s.%s" % (R, name), norm(ast.unparse(c))[:80],
+                                "the sample keys of a file are parsed into a signed 64-bit array although the writer accepts (and names "
+                                "groups from) any uint64 index: a sample at or above 2**63 - every present-day index at 5.3 GHz or more - "
+                                "is written and reported by get_bounds, but every read of its file raises OverflowError", line=c.lineno)
     for name, f in m.methods(R).items():
         q = "%s.%s" % (R, name)
         keyvars = set()
@@ -226,6 +250,14 @@ def r3_numeric_key_order(repo=None, rid="C12.R3"):
             key = pyfront.kwarg(c, "key")
             numeric = key is not None and (pyfront.dotted(key) in ("int", "np.int64", "np.uint64", "float") or (
                 isinstance(key, ast.Lambda) and "int(" in ast.unparse(key)))
+            # the elements are converted before they are ordered: sorted(int(k) for k in f.keys()), sorted(map(int, f.keys()))
+            a0 = c.args[0] if c.args else None
+            if isinstance(a0, (ast.GeneratorExp, ast.ListComp)) and isinstance(a0.elt, ast.Call) and pyfront.call_name(a0.elt) in (
+                    "int", "np.int64", "np.uint64") and len(a0.elt.args) == 1 and isinstance(a0.elt.args[0], ast.Name) \
+                    and isinstance(a0.generators[0].target, ast.Name) and a0.elt.args[0].id == a0.generators[0].target.id:
+                numeric = True
+            if isinstance(a0, ast.Call) and pyfront.call_name(a0) == "map" and a0.args and pyfront.dotted(a0.args[0]) in ("int", "np.int64", "np.uint64"):
+                numeric = True
             site = "%s:%s %s `%s`" % (m.rel, c.lineno, q, norm(ast.unparse(c)))
             if numeric:
                 r.ok(site, "string keys ordered by integer value")
@@ -352,6 +384,15 @@ def r5_recursive_shape(repo=None):
             r.violation(m.rel, ro.populate, norm(ast.unparse(c)), "stored strings are decoded as %r but h5py stores str as "
                         "UTF-8: a non-ASCII value fails to decode and is returned as raw bytes instead of the written string" % enc,
                         line=c.lineno)
+    # bytes -> str through numpy's unicode dtypes uses the ASCII codec: `<array of bytes>.astype(np.str_ / str / 'U')`
+    for c in ast.walk(pd):
+        if isinstance(c, ast.Call) and isinstance(c.func, ast.Attribute) and c.func.attr == "astype" and c.args:
+            t_ = norm(ast.unparse(c.args[0]))
+            if t_ in ("np.str_", "numpy.str_", "str", "np.unicode_", "'U'", "'<U'", "np.dtype('U')"):
+                r.violation(m.rel, ro.populate, norm(ast.unparse(c)), "an array of stored strings (h5py returns them as UTF-8 bytes) is "
+                            "converted with astype(%s), which decodes through the ASCII codec: a list of strings with one non-ASCII "
+                            "character raises UnicodeDecodeError in every read that touches its file, although a single string with "
+                            "the same text is decoded as UTF-8 and read back" % t_, line=c.lineno)
     wv = ro.write_view
     w = wv.fn()
     zips = [n for n in ast.walk(w) if isinstance(n, ast.For) and isinstance(n.iter, ast.Call) and pyfront.call_name(n.iter) == "zip"
